@@ -5,6 +5,8 @@ func init() {
 		ID:    "C10",
 		Title: "String literals are HTML-escaped on output; raw() is the exact opt-out",
 		Rules: []string{
+			"R-OUTPUT: EvaluateString and Template.String return the String() of the evaluated object unchanged",
+			"R-LAYOUT (alias): ~ is expanded only in the name of @use / @component, to layouts/ and components/",
 			"R-SCOPE / R-PATHAPI (file content): a literal stored in a variable stays that variable's value (Env.Get / Env.Set by cases); EvaluateFile hands the file's bytes to EvaluateString unchanged",
 			"R-FORMAT: every printf-like call (fmt family, and the module functions that hand a parameter on as a format: fail.New, newError, ...) gets a constant format, or the caller's own format parameter",
 			"R-CUTSET: no strings.Trim/TrimLeft/TrimRight with a constant set of several different characters on the output path (a set, not a suffix: it eats characters of the value)",
@@ -15,6 +17,8 @@ func init() {
 		NotDecided:  "TODO",
 		Assumptions: trustedBase,
 		Run: func(m *Model, s *Sink) {
+			m.RunOutputUnchanged(s, "R-OUTPUT")                          // the finished text is returned as it was printed (no pass over it changes a literal's bytes)
+			m.RunLayout(s, "R-LAYOUT")                                   // the ~ shortcut applies to the names of @use and @component only: an ordinary literal that starts with ~ keeps its text
 			m.RunScope(s, "R-SCOPE")                                     // a literal stored in a variable is what the variable prints: an inner binding does not overwrite an outer one
 			m.RunEvalFile(s, "R-PATHAPI")                                // a literal in a file reaches the lexer with the bytes the file has
 			m.RunObjString(s, "R-ESCAPE")                                // printing an object does not rewrite its text
